@@ -462,3 +462,38 @@ def replay(payload):
     else:
         v = _judge_special(core.random.Random(str(sc.get("tag"))), "rp%s" % sc.get("tag"))
     return {"violates": bool(v), "detail": v}
+
+
+def pregen(ctx):
+    """tie (T): re-translate Node.run (node.py) of the tree under test into coq/gen/Gen_run.v (translator vlib/py2coq_run.py on top of
+    vlib/py2coq_state.py, vocabulary coq/base/CtxPrelude.v + RunPrelude.v).  Its callees Node.with_state / _base.call are Section functions
+    of Gen_run.v which proofs/Gen_run_eq.v instantiates with the generated functions of coq/gen/Gen_state.v, so that file is re-translated
+    here too (the C08 pregen; both writers produce the same text from the same tree).  proofs/Gen_run_eq.v then proves the loop equal to
+    run_op of model/ModelSem.v on the one-node model.  Returns None or the error text; on rejection a stub that does not compile replaces
+    the file (never a stale model)."""
+    import os
+    import traceback
+    from props import c08
+    from vlib import py2coq_run
+    errs = []
+    e8 = c08.pregen(ctx)
+    if e8:
+        errs.append(str(e8))
+    path = os.path.join(core.COQ, "gen", "Gen_run.v")
+    os.makedirs(os.path.dirname(path), exist_ok=True)
+    err = None
+    try:
+        text = py2coq_run.emit(core.REPO)
+    except py2coq_run.Reject as ex:
+        err = "translation rejected: %s" % ex
+    except Exception:
+        err = "translator exception: " + traceback.format_exc()[-1500:]
+    if err is not None:
+        text = "(* GENERATED: translation of the run loops FAILED -- %s *)\nDefinition translation_failed : True := 0.\n" % (
+            err.replace("*)", "* )").replace("(*", "( *"))
+        errs.append("unit run (Node.run): %s" % err)
+    old = open(path).read() if os.path.exists(path) else None
+    if old != text:               # keep the mtime (and the compiled cone) when nothing changed
+        with open(path, "w") as f:
+            f.write(text)
+    return None if not errs else "; ".join(errs)
